@@ -64,8 +64,18 @@ class PythonMagicNumberAnalyzer(ast.NodeVisitor):
         self.generic_visit(node)
 
     def _context_parent(self, node: ast.AST) -> ast.AST | None:
-        """Parent that gives the literal its context: a sign in front of it (`MAX = -7`) is looked through."""
+        """Parent that gives the literal its context.
+
+        A sign in front of it (`MAX = -7`) and a keyword wrapper (`enumerate(xs, start=1)`) are looked through.
+        """
         parent = self.parent_map.get(node)
-        while isinstance(parent, ast.UnaryOp) and isinstance(parent.op, (ast.USub, ast.UAdd)):
+        while self._is_transparent(parent):
             parent = self.parent_map.get(parent)
         return parent
+
+    @staticmethod
+    def _is_transparent(parent: ast.AST | None) -> bool:
+        """Whether the node only wraps the literal without giving it a context of its own."""
+        if isinstance(parent, ast.keyword):
+            return True
+        return isinstance(parent, ast.UnaryOp) and isinstance(parent.op, (ast.USub, ast.UAdd))
